@@ -298,7 +298,9 @@ Definition no_use_before_def (st : cst) : bool :=
 Definition code (c : case) : nat :=
   let n0 := c_next c in
   let '(st, r) := run_clone c in
-  if negb (list_eqb N.eqb (proj_root (c_kind c) (fun x => assoc x (c_cells c)) (Pos.to_nat n0) (c_root c))
+  (* c_proto = [0]: the implementation could not serialize the original; the proto tie is skipped *)
+  if negb (list_eqb N.eqb (c_proto c) [0%N]) &&
+     negb (list_eqb N.eqb (proj_root (c_kind c) (fun x => assoc x (c_cells c)) (Pos.to_nat n0) (c_root c))
                     (c_proto c)) then 7 else
   match r, c_res c with
   | Raise e, Raise e' => if exn_eqb e e' then 0 else 1
@@ -314,7 +316,8 @@ Definition code (c : case) : nat :=
           if (match c_kind c with
               | 0%nat | 1%nat => negb (Bool.eqb (no_use_before_def st) (c_sorted c))
               | _ => false end) then 4
-          else if negb (list_eqb N.eqb (proj_root (match c_kind c with 1%nat => 0%nat | k => k end)
+          else if negb (list_eqb N.eqb (c_proto c) [0%N]) &&
+                  negb (list_eqb N.eqb (proj_root (match c_kind c with 1%nat => 0%nat | k => k end)
                                                    (cells (hp st)) (Pos.to_nat (next (hp st))) g')
                                  (c_proto_clone c)) then 8
           else
